@@ -1,8 +1,15 @@
 From Restic Require Import Base.Prelude Model.C22m Model.C24m Model.C23m.
 Import C23m.
 
-Lemma ids_only now o sel : o_ids o = true -> run_forget now o sel = Ok (map s_id sel).
-Proof. intros H. unfold run_forget. rewrite H. reflexivity. Qed.
+Lemma ids_only now o sel : o_ids o = true -> o_bad_id o = false -> run_forget now o sel = Ok (map s_id sel).
+Proof. intros H Hb. unfold run_forget. rewrite H, Hb. reflexivity. Qed.
+
+(* an id argument that does not resolve to exactly one snapshot (empty, blank, unknown, ambiguous)
+   makes the command fail before anything is deleted, whatever else was named *)
+Lemma ids_bad now o sel fail :
+  o_ids o = true -> o_bad_id o = true ->
+  run_forget now o sel = EOther /\ x_deleted (execute o fail (run_forget now o sel)) = [].
+Proof. intros H Hb. unfold run_forget. rewrite H, Hb. split; reflexivity. Qed.
 
 Lemma dry_run_no_remove o r : o_dry o = true -> deleted o r = [].
 Proof. intros H. unfold deleted. rewrite H. destruct r; reflexivity. Qed.
@@ -134,14 +141,15 @@ Definition ex_sel : list snap :=
 Example c23_nonvacuous :
   let now := C22m.mkTm 99999 0 0 in
   let g := C24m.mkG false true true in
-  run_forget now (mkO false g (ex_pol 1 []) false true false false) ex_sel = Ok [0%N]
-  /\ run_forget now (mkO false g (ex_pol 0 [[str "a"]]) false true false false) ex_sel = EGuard
-  /\ run_forget now (mkO false (C24m.mkG false false false) (ex_pol 0 [[str "a"]]) false true false false) ex_sel = Ok [2%N; 0%N]
-  /\ run_forget now (mkO false g (ex_pol 0 []) false true false false) ex_sel = ENoPolicy
-  /\ run_forget now (mkO false g (ex_pol 0 []) true true false false) ex_sel = EUnsafeNeedsFilter
-  /\ run_forget now (mkO false g (ex_pol 0 []) true false false false) ex_sel = Ok [1%N; 0%N; 2%N]
-  /\ run_forget now (mkO true g (ex_pol 0 []) false true false false) ex_sel = Ok [0%N; 1%N; 2%N]
-  /\ execute (mkO false g (ex_pol 1 []) false true false true) [1%N] (Ok [0%N; 1%N]) = mkX [0%N] RFailed false
-  /\ execute (mkO false g (ex_pol 1 []) false true false true) [] (Ok [0%N; 1%N]) = mkX [0%N; 1%N] ROk true
-  /\ execute (mkO false g (ex_pol 1 []) false true true true) [1%N] (Ok [0%N; 1%N]) = mkX [] ROk true.
+  run_forget now (mkO false g (ex_pol 1 []) false true false false false) ex_sel = Ok [0%N]
+  /\ run_forget now (mkO false g (ex_pol 0 [[str "a"]]) false true false false false) ex_sel = EGuard
+  /\ run_forget now (mkO false (C24m.mkG false false false) (ex_pol 0 [[str "a"]]) false true false false false) ex_sel = Ok [2%N; 0%N]
+  /\ run_forget now (mkO false g (ex_pol 0 []) false true false false false) ex_sel = ENoPolicy
+  /\ run_forget now (mkO false g (ex_pol 0 []) true true false false false) ex_sel = EUnsafeNeedsFilter
+  /\ run_forget now (mkO false g (ex_pol 0 []) true false false false false) ex_sel = Ok [1%N; 0%N; 2%N]
+  /\ run_forget now (mkO true g (ex_pol 0 []) false true false false false) ex_sel = Ok [0%N; 1%N; 2%N]
+  /\ run_forget now (mkO true g (ex_pol 0 []) false true false false true) ex_sel = EOther
+  /\ execute (mkO false g (ex_pol 1 []) false true false true false) [1%N] (Ok [0%N; 1%N]) = mkX [0%N] RFailed false
+  /\ execute (mkO false g (ex_pol 1 []) false true false true false) [] (Ok [0%N; 1%N]) = mkX [0%N; 1%N] ROk true
+  /\ execute (mkO false g (ex_pol 1 []) false true true true false) [1%N] (Ok [0%N; 1%N]) = mkX [] ROk true.
 Proof. vm_compute. repeat split. Qed.
